@@ -14,3 +14,23 @@ Theorem C15_gen_relations : forall a b,
 Proof. intros a b. exact (conj (g_overlaps_eq a b) (conj (g_contains_eq a b) (conj (g_r_lt_eq a b) (g_r_le_eq a b)))). Qed.
 Theorem C15_gen_hull : forall a b, g_hull a b = hull a b.
 Proof. exact g_hull_eq. Qed.
+
+(* non-vacuity witnesses *)
+(* the five theorems above are equations for all inputs, without premises: nothing to inhabit.  Shown instead: the
+   regenerated functions take both values of every guard and relation on well-formed points and ranges
+   (w15_p i l c = the point, w15_r a b = the range from index a to index b) *)
+From Oak Require Import Proofs.C15Witness.
+Theorem C15_ex_gen_branches :
+  g_point_rejected (w15_p 3 1 0) = false /\ g_point_rejected (w15_p (-1) 1 0) = true
+  /\ g_point_rejected (w15_p 3 0 0) = true /\ g_point_rejected (w15_p 3 1 (-2)) = true
+  /\ g_p_lt (w15_p 3 1 3) (w15_p 5 1 5) = true /\ g_p_lt (w15_p 5 1 5) (w15_p 5 2 0) = false
+  /\ g_p_le (w15_p 5 1 5) (w15_p 5 2 0) = true /\ g_p_le (w15_p 6 1 5) (w15_p 5 2 0) = false
+  /\ g_mk_range (w15_p 3 1 3) (w15_p 5 1 5) = Some {| r_start := w15_p 3 1 3; r_end := w15_p 5 1 5 |}
+  /\ g_mk_range (w15_p 5 1 5) (w15_p 3 1 3) = None
+  /\ g_overlaps (w15_r 1 4) (w15_r 3 9) = true /\ g_overlaps (w15_r 1 2) (w15_r 3 9) = false
+  /\ g_contains (w15_r 1 9) (w15_r 3 4) = true /\ g_contains (w15_r 3 4) (w15_r 1 9) = false
+  /\ g_r_lt (w15_r 1 2) (w15_r 3 9) = true /\ g_r_lt (w15_r 1 3) (w15_r 3 9) = false
+  /\ g_r_le (w15_r 1 3) (w15_r 3 9) = true /\ g_r_le (w15_r 1 4) (w15_r 3 9) = false
+  /\ g_hull (w15_r 3 4) (w15_r 1 2) = Some {| r_start := w15_p 1 1 1; r_end := w15_p 4 2 0 |}
+  /\ g_hull (w15_r 1 9) (w15_r 3 4) = Some (w15_r 1 9).
+Proof. exact w15_branches. Qed.
